@@ -30,12 +30,14 @@ def stage_kind(name, t0, T=None):
         d = P.case(method="MS", N=2, M=1, rhs="nl_t", horizon="Tparam", cons=[P.con("x_le")], obj=["integral_t", "mayer_tf"], T0=t0, TT=T or 1.25)
     elif name == "J":  # constraints on three different grids (path, boundary point, integrator grid)
         d = P.case(method="MS", N=2, M=2, rhs="nl", cons=[P.con("x_le"), P.con("bcf"), P.con("xt_le", grid="integrator", include_first=False)], obj=["integral"], T0=t0, TT=T or 1.05)
+    elif name == "K":  # the horizon (not time) inside a boundary evaluation: clones use their own T
+        d = P.case(method="MS", N=2, M=1, rhs="nl", cons=[P.con("x_le")], obj=["mayer_Tonly", "integral"], T0=t0, TT=T or 1.35)
     else:
         raise KeyError(name)
     return d
 
 
-KINDS = ["A", "B", "C", "D", "E", "F", "G", "H", "I", "J"]
+KINDS = ["A", "B", "C", "D", "E", "F", "G", "H", "I", "J", "K"]
 
 
 def build(names, coupling, via, start=0.3):
